@@ -82,9 +82,7 @@ def vertexStructMethods (m : Module) : G (List RVertex) := do
   inputs.mapM fun inp => do
     let attrs ← inp.fields.mapM fun (lm : Nat × Member) => do
       let fname ← unwrapName "member-name" lm.2.name
-      let ty ← match m.types[lm.2.ty]? with
-        | some t => pure t
-        | none => .error (.panic "bad-handle")
+      let ty ← typeAt m lm.2.ty
       let fmt ← vertexFormat ty
       pure ({ format := fmt, ofStruct := inp.name, field := fname, location := lm.1 } : RAttr)
     pure { name := inp.name, count := inp.fields.length, attrs := attrs,
